@@ -835,6 +835,8 @@ func (e *Env) callExpr(ex *ast.CallExpr, hint types.Type) Val {
 			k := e.eval(ex.Args[0], intT)
 			c.declareFun("gtape", []string{"Int"}, c.intSort(8))
 			return Val{T: types.Typ[types.Uint8], S: sx("gtape", c.toIdx(k.T, k.S))}
+		case "rfault": // ghost: some read from an underlying io.Reader has failed (not io.EOF) so far
+			return Val{T: boolT, S: c.region(e.st, "$rfault")}
 		case "wfault": // ghost: some write to an underlying io.Writer has failed so far
 			return Val{T: boolT, S: c.region(e.st, "$wfault")}
 		case "live":
